@@ -1,6 +1,7 @@
 package chain
 
 import (
+	"bytes"
 	"crypto/sha256"
 	"encoding/hex"
 	"encoding/json"
@@ -29,6 +30,12 @@ type TraceOp struct {
 	Prop   []byte `json:"p,omitempty"` // proposer address (begin)
 	// Digest of the observable result of this call (filled by whoever executes it)
 	Digest string `json:"d,omitempty"`
+	// tx only: digest of the same result without GasUsed (tells "only the gas differs" apart from other divergences)
+	Digest2 string `json:"d2,omitempty"`
+	// tx only, filled by Replay: "stateless-reject" when a message of the transaction fails ValidateBasic (such a
+	// transaction never reaches the ante handler), with "/first-block-after-restart" appended when the instance
+	// executing it was started at the previous Commit
+	Class string `json:"cls,omitempty"`
 	// human-readable summary (code/gas), not part of the comparison
 	Info string `json:"i,omitempty"`
 	// begin only: number of accounts paid by the storage module in this BeginBlock (recorded for the non-trivial rule)
@@ -76,6 +83,14 @@ func DigestTx(res abci.ResponseDeliverTx) string {
 	return hex.EncodeToString(h.Sum(nil)[:12])
 }
 
+// DigestTxNoGas is DigestTx without GasUsed.
+func DigestTxNoGas(res abci.ResponseDeliverTx) string {
+	h := sha256.New()
+	fmt.Fprintf(h, "code=%d;cs=%s;gw=%d;data=%x;", res.Code, res.Codespace, res.GasWanted, res.Data)
+	digestEvents(h, res.Events)
+	return hex.EncodeToString(h.Sum(nil)[:12])
+}
+
 func DigestEnd(res abci.ResponseEndBlock) string {
 	h := sha256.New()
 	digestEvents(h, res.Events)
@@ -90,7 +105,10 @@ type ReplayOpts struct {
 	// Interleave > 0 sprinkles serialised CheckTx / Query / Simulate calls between
 	// the consensus calls (the interleavings Tendermint's shared ABCI mutex permits).
 	Interleave float64
-	Rng        *rand.Rand
+	// Restart is the probability, per Commit, that the node is stopped and a new application instance is started on
+	// the same database (everything the old instance held in memory is gone; only committed state survives).
+	Restart float64
+	Rng     *rand.Rand
 }
 
 // Replay re-executes one recorded chain on a fresh application and returns the
@@ -106,8 +124,11 @@ func Replay(ops []TraceOp, o ReplayOpts) (out []TraceOp, perr error) {
 	}
 	defer os.RemoveAll(home)
 	enc := app.MakeEncodingConfig()
-	a := app.NewJackalApp(log.NewNopLogger(), dbm.NewMemDB(), nil, true, map[int64]bool{}, home, 0,
+	db := dbm.NewMemDB()
+	a := app.NewJackalApp(log.NewNopLogger(), db, nil, true, map[int64]bool{}, home, 0,
 		enc, wasm.EnableAllProposals, app.EmptyBaseAppOptions{}, nil)
+	restarts := 0
+	freshInstance := false // the running instance was started at the previous Commit
 	defer func() {
 		if r := recover(); r != nil {
 			perr = &PanicError{Where: "replay", Value: fmt.Sprint(r), Stack: string(debug.Stack())}
@@ -165,7 +186,19 @@ func Replay(ops []TraceOp, o ReplayOpts) (out []TraceOp, perr error) {
 			res := a.DeliverTx(abci.RequestDeliverTx{Tx: op.Bytes})
 			txi++
 			r.Digest = DigestTx(res)
+			r.Digest2 = DigestTxNoGas(res)
 			r.Info = fmt.Sprintf("code=%d gas=%d", res.Code, res.GasUsed)
+			if tx, err := enc.TxConfig.TxDecoder()(op.Bytes); err == nil {
+				for _, m := range tx.GetMsgs() {
+					if m.ValidateBasic() != nil {
+						r.Class = "stateless-reject"
+						if freshInstance {
+							r.Class += "/first-block-after-restart"
+						}
+						break
+					}
+				}
+			}
 		case "end":
 			res := a.EndBlock(abci.RequestEndBlock{Height: op.Height})
 			r.Digest = DigestEnd(res)
@@ -174,7 +207,30 @@ func Replay(ops []TraceOp, o ReplayOpts) (out []TraceOp, perr error) {
 			committedOnce = true
 			lastHash = res.Data
 			r.Digest = hex.EncodeToString(res.Data)
+			if o.Restart > 0 && o.Rng != nil && o.Rng.Float64() < o.Restart {
+				// node restart: a new instance over the same database (its own wasm cache directory)
+				restarts++
+				h2, err := os.MkdirTemp(home, "restart-")
+				if err != nil {
+					return nil, err
+				}
+				a = app.NewJackalApp(log.NewNopLogger(), db, nil, true, map[int64]bool{}, h2, 0,
+					enc, wasm.EnableAllProposals, app.EmptyBaseAppOptions{}, nil)
+				if got := a.LastCommitID().Hash; !bytes.Equal(got, lastHash) {
+					r.Digest = "restarted instance reports last commit " + hex.EncodeToString(got)
+				}
+				r.Info = "restart"
+				freshInstance = true
+			} else {
+				freshInstance = false
+			}
 			noise(true)
+		case "sim":
+			// a transaction some client asked this node to simulate; it is never delivered. Only nodes that serve
+			// such requests execute it (process A does not).
+			if o.Interleave > 0 && committedOnce {
+				a.Query(abci.RequestQuery{Path: "/app/simulate", Data: op.Bytes})
+			}
 		}
 		out = append(out, r)
 	}
